@@ -696,7 +696,19 @@ func runC01(c *mon.Ctx) {
 			n := f.NumGlyphs()
 			for rep := 0; rep < 1+er.IntN(4); rep++ {
 				g := er.IntN(n)
-				switch er.IntN(9) {
+				switch er.IntN(10) {
+				case 9: // a glyph name, in place
+					switch ol := f.Outlines.(type) {
+					case *glyf.Outlines:
+						if g < len(ol.Names) && g > 0 {
+							ol.Names[g] = fmt.Sprintf("renamed.%d", g)
+						}
+					case *cff.Outlines:
+						if !ol.IsCIDKeyed() && g > 0 {
+							ol.Glyphs[g].Name = fmt.Sprintf("renamed.%d", g)
+						}
+					}
+					edits = append(edits, fmt.Sprintf("name of glyph %d", g))
 				case 0:
 					f.FamilyName += "X"
 					edits = append(edits, "family name")
